@@ -26,4 +26,5 @@ var All = map[string]func(*Ctx){
 	"C10": C10,
 	"C11": C11,
 	"C12": C12,
+	"C13": C13,
 }
